@@ -166,6 +166,8 @@ def run_bank(desc, tier, seed, res):
             o = attempt(Bus([unit3, other3], bound=600), cls.write_raw(addr3, raw, ignore_feedback=True))
             if o[0] != "ok" or not image_ok(bank3, b3, row, raw, is_lockbyte):
                 res.violation("C10/ignore-feedback/wrong", f"{name}: ignore_feedback write gave {o[0]} / wrong memory", wit)
+            elif has_lock and not is_lockbyte and row.access == "nvm_rw_l" and bank3.image[2] == 0x55:
+                res.violation("C10/write/left-unlocked/ignore-feedback", f"{name}: write with ignore_feedback=True left the bank unlocked", wit)
             # ------------------------------------------------ fault enumeration over the command stream
             if d == 0:
                 for pos in range(ncmd):
@@ -205,8 +207,16 @@ def run_bank(desc, tier, seed, res):
                             ("shorter-bank", dict(last=max(row.last - 1, 0))), ("shorter-bank-first", dict(last=max(row.first - 1, 0)))]
                 if row.access == "nvm_rw_l":
                     variants.append(("stays-locked", dict(unlock_value=0x5A)))
+                # DTR0 stalls at exactly one write command (the unlock write, each data byte)
+                n_writes = w + (1 if row.access == "nvm_rw_l" else 0)
+                for k in range(n_writes):
+                    variants.append((f"dtr0-stalls-once", dict(_stall={k})))
                 for vname, kw in variants:
+                    kw = dict(kw)
+                    stall = kw.pop("_stall", None)
                     unit5, other5, bank5, ob5, addr5 = make_unit(rng(seed, "C10", bankkey, desc["rep"], name, d), bankkey, family, lock0, **kw)
+                    if stall is not None:
+                        bank5.stall_writes = stall
                     if vname.startswith("shorter") and is_lockbyte:
                         continue
                     b5 = list(bank5.image)
@@ -215,12 +225,17 @@ def run_bank(desc, tier, seed, res):
                     res.distinct += 1
                     res.hit("unit_variants")
                     o = attempt(bus5, cls.write_raw(addr5, raw))
-                    vw = {**wit, "unit_variant": vname}
+                    vw = {**wit, "unit_variant": vname, "stall_at_write": sorted(stall) if stall else None}
                     if o[0] == "exc" and type(o[1]).__name__ not in DOCUMENTED:
                         res.violation(f"C10/variant/undocumented-exception/{type(o[1]).__name__}", f"{name} on a unit that {vname}: {type(o[1]).__name__}: {o[1]}", vw)
                     elif o[0] == "ok":
+                        good = image_ok(bank5, b5, row, raw, is_lockbyte)
+                        if vname == "dtr0-stalls-once" and good:
+                            # the stall was overwritten by an explicit DTR0 load: invisible and harmless
+                            res.add("harmless_stalls")
+                            continue
                         res.violation(f"C10/variant/not-reported/{vname}", f"{name}: the unit {vname} but write_raw returned normally "
-                                      f"(memory correct: {image_ok(bank5, b5, row, raw, is_lockbyte)})", vw)
+                                      f"(memory correct: {good})", vw)
                 # a read-only / unimplemented location inside a writeable value
                 unit6, other6, bank6, ob6, addr6 = make_unit(rng(seed, "C10", "ro", name), bankkey, family, lock0)
                 from models.membank import RO
